@@ -3,6 +3,7 @@ SPECIFICATION Spec
 CONSTANTS
   MaxLua = 2
   AmountSigns <- Signs3
+  Direct = FALSE
   ForkVersions <- Fork5
 VIEW view
 CONSTRAINT Bounded
